@@ -26,6 +26,14 @@
 //! to 3 edits (+UniformX at 2, +Uniform and PlainFirst at 3) and 4 edits PlainSweep (+LastGapAll
 //! over 5 texts). A wall cap stops the stage list; completed stages are reported.
 //!
+//! Twin stage (both tiers, runs first): 2 files, TWINS = groups of SAME-LENGTH library texts that
+//! differ only inside one non-name token (EXTENDS/IMPLEMENTS clause, return/parameter/element/
+//! field type name, constant/enum/initial value, qualifier, direct address) plus a user file that
+//! sees the difference through inheritance / calls / externals: [set(lib,v1), set(user,U) in
+//! either order; gap; set(lib,v2); final] for every ordered twin pair and both FileId assignments
+//! (signature shape `set-change:<what>-only`). Quick also has a 4-edit sweep-only stage confined
+//! to 2 files over 5 texts (the shortest "remove f; edit present g; query g" history has 4 edits).
+//!
 //! Oracle (differential, no hand-written expectations): the canonical rendering of every answer
 //! of the incremental database equals the rendering of the same query on a brand-new database
 //! loaded with the final contents under the same FileIds (loaded in ascending FileId order; a
@@ -95,6 +103,121 @@ const K_ANALYZE: usize = 1;
 const K_FSYM: usize = 2;
 const K_TYPEOF: usize = 3;
 const K_EXPR: usize = 4;
+/// Same-length twin families (2 files: a library file whose variants differ ONLY inside one
+/// non-name token — no declared name and no range of a declared name moves — and a user file that
+/// observes the difference through another file). They target memoised cross-file results that
+/// are kept because "nothing changed" was decided on too coarse an equality (salsa backdating).
+struct TwinGroup {
+    cat: &'static str,
+    /// edit-shape suffix used in signatures when the culprit edit goes from one twin to another
+    shape: &'static str,
+    libs: &'static [&'static str],
+    user: &'static str,
+}
+
+const TWINS: &[TwinGroup] = &[
+    // (a) base name in an EXTENDS clause of the LAST declaration of the file
+    TwinGroup {
+        cat: "extends",
+        shape: "set-change:clause-only",
+        libs: &[
+            "FUNCTION_BLOCK BaseA\nVAR_OUTPUT level : INT; END_VAR\nMETHOD PUBLIC Foo : INT\nFoo := 1;\nEND_METHOD\nEND_FUNCTION_BLOCK\nFUNCTION_BLOCK BaseB\nMETHOD PUBLIC Foo : BOOL\nFoo := TRUE;\nEND_METHOD\nEND_FUNCTION_BLOCK\nFUNCTION_BLOCK Derived EXTENDS BaseA\nEND_FUNCTION_BLOCK\n",
+            "FUNCTION_BLOCK BaseA\nVAR_OUTPUT level : INT; END_VAR\nMETHOD PUBLIC Foo : INT\nFoo := 1;\nEND_METHOD\nEND_FUNCTION_BLOCK\nFUNCTION_BLOCK BaseB\nMETHOD PUBLIC Foo : BOOL\nFoo := TRUE;\nEND_METHOD\nEND_FUNCTION_BLOCK\nFUNCTION_BLOCK Derived EXTENDS BaseB\nEND_FUNCTION_BLOCK\n",
+        ],
+        user: "PROGRAM Main\nVAR d : Derived; x : INT; END_VAR\nx := d.Foo();\nd.level := 1;\nEND_PROGRAM\n",
+    },
+    // (a) interface name in an IMPLEMENTS clause
+    TwinGroup {
+        cat: "implements",
+        shape: "set-change:clause-only",
+        libs: &[
+            "INTERFACE IA\nMETHOD Foo : INT\nEND_METHOD\nEND_INTERFACE\nINTERFACE IB\nMETHOD Bar : INT\nEND_METHOD\nEND_INTERFACE\nFUNCTION_BLOCK Impl IMPLEMENTS IA\nMETHOD PUBLIC Foo : INT\nFoo := 1;\nEND_METHOD\nEND_FUNCTION_BLOCK\n",
+            "INTERFACE IA\nMETHOD Foo : INT\nEND_METHOD\nEND_INTERFACE\nINTERFACE IB\nMETHOD Bar : INT\nEND_METHOD\nEND_INTERFACE\nFUNCTION_BLOCK Impl IMPLEMENTS IB\nMETHOD PUBLIC Foo : INT\nFoo := 1;\nEND_METHOD\nEND_FUNCTION_BLOCK\n",
+        ],
+        user: "PROGRAM Main\nVAR i : IA; f : Impl; x : INT; END_VAR\ni := f;\nx := i.Foo();\nEND_PROGRAM\n",
+    },
+    // (b) a type name that is not itself a declared name: return type / parameter type
+    TwinGroup {
+        cat: "signature",
+        shape: "set-change:type-name-only",
+        libs: &[
+            "FUNCTION F : DINT\nVAR_INPUT p : DINT; END_VAR\nEND_FUNCTION\n",
+            "FUNCTION F : BOOL\nVAR_INPUT p : DINT; END_VAR\nEND_FUNCTION\n",
+            "FUNCTION F : DINT\nVAR_INPUT p : BOOL; END_VAR\nEND_FUNCTION\n",
+        ],
+        user: "PROGRAM Main\nVAR x : DINT; END_VAR\nx := F(p := x);\nEND_PROGRAM\n",
+    },
+    // (b) array element type / field type / (c) array bound
+    TwinGroup {
+        cat: "typedef",
+        shape: "set-change:type-name-only",
+        libs: &[
+            "TYPE TA : ARRAY[0..1] OF DINT; END_TYPE\nTYPE TS : STRUCT a : DINT; END_STRUCT END_TYPE\n",
+            "TYPE TA : ARRAY[0..1] OF BOOL; END_TYPE\nTYPE TS : STRUCT a : DINT; END_STRUCT END_TYPE\n",
+            "TYPE TA : ARRAY[0..1] OF DINT; END_TYPE\nTYPE TS : STRUCT a : BOOL; END_STRUCT END_TYPE\n",
+            "TYPE TA : ARRAY[0..2] OF DINT; END_TYPE\nTYPE TS : STRUCT a : DINT; END_STRUCT END_TYPE\n",
+        ],
+        user: "PROGRAM Main\nVAR a : TA; s : TS; x : DINT; END_VAR\nx := a[0];\nx := s.a;\nx := a[2];\nEND_PROGRAM\n",
+    },
+    // (c) a constant's value / an enum value / an initial value
+    TwinGroup {
+        cat: "value",
+        shape: "set-change:value-only",
+        libs: &[
+            "TYPE E : (R := 1, G := 2); END_TYPE\nCONFIGURATION C\nVAR_GLOBAL CONSTANT\nK : INT := 1;\nEND_VAR\nVAR_GLOBAL\nv : INT := 1;\nEND_VAR\nEND_CONFIGURATION\n",
+            "TYPE E : (R := 1, G := 3); END_TYPE\nCONFIGURATION C\nVAR_GLOBAL CONSTANT\nK : INT := 1;\nEND_VAR\nVAR_GLOBAL\nv : INT := 1;\nEND_VAR\nEND_CONFIGURATION\n",
+            "TYPE E : (R := 1, G := 2); END_TYPE\nCONFIGURATION C\nVAR_GLOBAL CONSTANT\nK : INT := 2;\nEND_VAR\nVAR_GLOBAL\nv : INT := 1;\nEND_VAR\nEND_CONFIGURATION\n",
+            "TYPE E : (R := 1, G := 2); END_TYPE\nCONFIGURATION C\nVAR_GLOBAL CONSTANT\nK : INT := 1;\nEND_VAR\nVAR_GLOBAL\nv : INT := 2;\nEND_VAR\nEND_CONFIGURATION\n",
+        ],
+        user: "PROGRAM Main\nVAR_EXTERNAL CONSTANT K : INT; END_VAR\nVAR_EXTERNAL v : INT; END_VAR\nVAR a : ARRAY[0..K] OF INT; e : E; END_VAR\ne := G;\na[2] := v;\nEND_PROGRAM\n",
+    },
+    // (d) a qualifier: method visibility, CONSTANT/RETAIN, parameter direction (padded with blanks
+    // so that no name moves)
+    TwinGroup {
+        cat: "qualifier",
+        shape: "set-change:qualifier-only",
+        libs: &[
+            "FUNCTION_BLOCK Base\nVAR_OUTPUT o : INT; END_VAR\nMETHOD PUBLIC  Foo : INT\nFoo := 1;\nEND_METHOD\nEND_FUNCTION_BLOCK\nCONFIGURATION C\nVAR_GLOBAL CONSTANT\nK : INT := 1;\nEND_VAR\nEND_CONFIGURATION\n",
+            "FUNCTION_BLOCK Base\nVAR_OUTPUT o : INT; END_VAR\nMETHOD PRIVATE Foo : INT\nFoo := 1;\nEND_METHOD\nEND_FUNCTION_BLOCK\nCONFIGURATION C\nVAR_GLOBAL CONSTANT\nK : INT := 1;\nEND_VAR\nEND_CONFIGURATION\n",
+            "FUNCTION_BLOCK Base\nVAR_INPUT  o : INT; END_VAR\nMETHOD PUBLIC  Foo : INT\nFoo := 1;\nEND_METHOD\nEND_FUNCTION_BLOCK\nCONFIGURATION C\nVAR_GLOBAL CONSTANT\nK : INT := 1;\nEND_VAR\nEND_CONFIGURATION\n",
+            "FUNCTION_BLOCK Base\nVAR_OUTPUT o : INT; END_VAR\nMETHOD PUBLIC  Foo : INT\nFoo := 1;\nEND_METHOD\nEND_FUNCTION_BLOCK\nCONFIGURATION C\nVAR_GLOBAL RETAIN  \nK : INT := 1;\nEND_VAR\nEND_CONFIGURATION\n",
+        ],
+        user: "PROGRAM Main\nVAR_EXTERNAL K : INT; END_VAR\nVAR d : Base; x : INT; END_VAR\nx := d.Foo();\nx := d.o;\nd(o := 1);\nK := 3;\nEND_PROGRAM\n",
+    },
+    // (e) a direct address
+    TwinGroup {
+        cat: "address",
+        shape: "set-change:address-only",
+        libs: &[
+            "CONFIGURATION C\nVAR_GLOBAL\ng AT %QX0.0 : BOOL;\nEND_VAR\nEND_CONFIGURATION\n",
+            "CONFIGURATION C\nVAR_GLOBAL\ng AT %QX0.1 : BOOL;\nEND_VAR\nEND_CONFIGURATION\n",
+            "CONFIGURATION C\nVAR_GLOBAL\ng AT %IX0.0 : BOOL;\nEND_VAR\nEND_CONFIGURATION\n",
+        ],
+        user: "PROGRAM Main\nVAR_EXTERNAL g : BOOL; END_VAR\ng := TRUE;\nEND_PROGRAM\n",
+    },
+];
+
+fn twin_label(cat: &str, i: usize) -> String {
+    format!("tw.{cat}.{i}")
+}
+
+/// `Some(shape)` if both labels name library twins of the same group
+fn twin_shape(old_label: &str, new_label: &str) -> Option<&'static str> {
+    let cat_of = |l: &str| -> Option<(String, String)> {
+        let mut it = l.splitn(3, '.');
+        if it.next()? != "tw" {
+            return None;
+        }
+        Some((it.next()?.to_string(), it.next()?.to_string()))
+    };
+    let (c1, k1) = cat_of(old_label)?;
+    let (c2, k2) = cat_of(new_label)?;
+    if c1 != c2 || k1 == "user" || k2 == "user" {
+        return None;
+    }
+    TWINS.iter().find(|g| g.cat == c1).map(|g| g.shape)
+}
+
 /// order of one sweep inside a file (type_of before analyze so that the type_of answers are
 /// obtained before the table used to NAME them is requested)
 const SWEEP: [usize; 5] = [K_FSYM, K_EXPR, K_TYPEOF, K_DIAG, K_ANALYZE];
@@ -799,6 +922,14 @@ impl Menu {
         let budgets = Budgets::for_ops(&ops)?;
         Ok(Menu { nfiles, texts, budgets })
     }
+    fn from_texts(nfiles: usize, texts: Vec<(String, Arc<str>)>) -> Result<Menu, String> {
+        let ops: Vec<Op> = texts
+            .iter()
+            .map(|(l, t)| Op::Set { file: 0, label: l.clone(), text: t.clone() })
+            .collect();
+        let budgets = Budgets::for_ops(&ops)?;
+        Ok(Menu { nfiles, texts, budgets })
+    }
     fn contents(&self, st: &[Option<usize>]) -> Vec<Option<Arc<str>>> {
         st.iter().map(|v| v.map(|i| self.texts[i].1.clone())).collect()
     }
@@ -916,12 +1047,12 @@ fn detailed(case: &Case, budgets: &Budgets) -> Detailed {
 
 fn edit_shape(ops: &[Op], idx: usize) -> &'static str {
     // shape of edit ops[idx] relative to the contents before it
-    let mut cur: HashMap<usize, Arc<str>> = HashMap::new();
+    let mut cur: HashMap<usize, (Arc<str>, String)> = HashMap::new();
     let mut ever: HashSet<usize> = HashSet::new();
     for op in &ops[..idx] {
         match op {
-            Op::Set { file, text, .. } => {
-                cur.insert(*file, text.clone());
+            Op::Set { file, text, label } => {
+                cur.insert(*file, (text.clone(), label.clone()));
                 ever.insert(*file);
             }
             Op::Remove { file } => {
@@ -931,8 +1062,12 @@ fn edit_shape(ops: &[Op], idx: usize) -> &'static str {
         }
     }
     match &ops[idx] {
-        Op::Set { file, text, .. } => match cur.get(file) {
-            Some(old) if old == text => "set-same",
+        Op::Set { file, text, label } => match cur.get(file) {
+            Some((old, _)) if old == text => "set-same",
+            // same-length twin that differs only inside one non-name token (see TWINS)
+            Some((old, old_label)) if old.len() == text.len() && twin_shape(old_label, label).is_some() => {
+                twin_shape(old_label, label).unwrap_or("set-change")
+            }
             Some(_) => "set-change",
             None if ever.contains(file) => "set-readd",
             None => "set-add",
@@ -1266,6 +1401,159 @@ fn family_vectors(fam: Family, d: usize, ns: usize) -> Vec<(Vec<usize>, usize)> 
     out
 }
 
+/// Result of the twin stage.
+struct TwinOut {
+    agg: Agg,
+    /// load cases whose two fresh databases disagree or panic
+    fresh_cases: Vec<Case>,
+    pairs: u64,
+    /// ordered twin pairs whose difference is visible in the answers for the OTHER (user) file
+    pairs_visible_in_user_file: u64,
+    complete: bool,
+}
+
+/// Twin stage: for every group of TWINS, both file assignments, both load orders, every ordered
+/// pair (v1, v2) of library twins: [set(lib,v1), set(user,U) (either order); gap; set(lib,v2);
+/// final] with gap in {none, all, every single query} and final in {sweep, every single query
+/// first} (thorough: full product; quick: see the filter below).
+fn twin_stage(threads: usize, stack: usize, deadline: Instant, full_product: bool) -> Result<TwinOut, Machinery> {
+    struct G {
+        menu: Menu,
+        table: Vec<Expect>,
+        nl: usize,
+    }
+    let nfiles = 2usize;
+    let mut groups: Vec<G> = Vec::new();
+    let mut out = TwinOut { agg: Agg::default(), fresh_cases: vec![], pairs: 0, pairs_visible_in_user_file: 0, complete: true };
+    for g in TWINS {
+        if g.libs.iter().any(|l| l.len() != g.libs[0].len()) {
+            return machinery(format!("twin group {}: library twins differ in length", g.cat));
+        }
+        let mut texts: Vec<(String, Arc<str>)> =
+            g.libs.iter().enumerate().map(|(i, t)| (twin_label(g.cat, i), Arc::from(*t))).collect();
+        texts.push((format!("tw.{}.user", g.cat), Arc::from(g.user)));
+        let menu = Menu::from_texts(nfiles, texts).map_err(Machinery)?;
+        let nt = menu.texts.len();
+        let nstates = (nt + 1).pow(nfiles as u32);
+        let codes: Vec<usize> = (0..nstates).collect();
+        let res = par_map(&codes, threads, stack, None, |_, &code| {
+            let st = state_decode(code, nfiles, nt);
+            let cur = menu.contents(&st);
+            (fresh_obs(nfiles, &cur, &menu.budgets, false), fresh_obs(nfiles, &cur, &menu.budgets, true))
+        });
+        let mut table = Vec::with_capacity(nstates);
+        let mut user_view: HashMap<usize, Vec<u64>> = HashMap::new();
+        for (code, r) in res.into_iter().enumerate() {
+            let Some((asc, desc)) = r else { return machinery("twin expected-answer table incomplete") };
+            let st = state_decode(code, nfiles, nt);
+            let load_case = Case {
+                nfiles,
+                ops: st
+                    .iter()
+                    .enumerate()
+                    .filter_map(|(f, v)| v.map(|i| Op::Set { file: f, label: menu.texts[i].0.clone(), text: menu.texts[i].1.clone() }))
+                    .collect(),
+                first: None,
+            };
+            match (asc, desc) {
+                (Ok(a), Ok(d)) => {
+                    let ha = hashes(&a);
+                    let hd = hashes(&d);
+                    if ha != hd {
+                        out.fresh_cases.push(load_case);
+                    }
+                    // what the user file (if it holds the user text) reports
+                    for f in 0..nfiles {
+                        if st[f] == Some(nt - 1) {
+                            user_view.insert(code, vec![ha[f][K_DIAG], ha[f][K_ANALYZE], ha[f][K_TYPEOF]]);
+                        }
+                    }
+                    table.push(Expect { asc: ha, desc: hd, diag_order_asc: a.diag_order.iter().map(|l| hash_lines(l)).collect() });
+                }
+                _ => {
+                    out.fresh_cases.push(load_case);
+                    table.push(Expect { asc: vec![[0; 5]; nfiles], desc: vec![[1; 5]; nfiles], diag_order_asc: vec![0; nfiles] });
+                }
+            }
+        }
+        let nl = g.libs.len();
+        for v1 in 0..nl {
+            for v2 in 0..nl {
+                if v1 != v2 {
+                    out.pairs += 1;
+                    let c1 = state_code(&[Some(v1), Some(nt - 1)], nt);
+                    let c2 = state_code(&[Some(v2), Some(nt - 1)], nt);
+                    if user_view.get(&c1) != user_view.get(&c2) {
+                        out.pairs_visible_in_user_file += 1;
+                    }
+                }
+            }
+        }
+        groups.push(G { menu, table, nl });
+    }
+    // histories
+    let mut items: Vec<(usize, Case, Vec<Option<usize>>)> = Vec::new();
+    for (gi, g) in groups.iter().enumerate() {
+        let singles = g.menu.singles();
+        let ns = singles.len();
+        let nt = g.menu.texts.len();
+        let set = |f: usize, t: usize| Op::Set { file: f, label: g.menu.texts[t].0.clone(), text: g.menu.texts[t].1.clone() };
+        for (fl, fu) in [(0usize, 1usize), (1, 0)] {
+            for v1 in 0..g.nl {
+                for v2 in 0..g.nl {
+                    if v1 == v2 {
+                        continue;
+                    }
+                    for lib_first in [true, false] {
+                        for gap in 0..ns + 2 {
+                            for fin in 0..=ns {
+                                // quick: every gap choice with a plain sweep; "all" with every
+                                // first query; a single query with the same query first
+                                if !full_product && !(fin == 0 || gap == 1 || (gap >= 2 && fin == gap - 1)) {
+                                    continue;
+                                }
+                                let mut ops = if lib_first { vec![set(fl, v1), set(fu, nt - 1)] } else { vec![set(fu, nt - 1), set(fl, v1)] };
+                                ops.extend(memo_ops(gap, &singles));
+                                ops.push(set(fl, v2));
+                                let mut st = vec![None; nfiles];
+                                st[fl] = Some(v2);
+                                st[fu] = Some(nt - 1);
+                                items.push((gi, Case { nfiles, ops, first: if fin == 0 { None } else { Some(singles[fin - 1]) } }, st));
+                            }
+                        }
+                    }
+                }
+            }
+        }
+    }
+    let chunk = 32usize;
+    let nchunks = items.len().div_ceil(chunk);
+    let idx: Vec<usize> = (0..nchunks).collect();
+    let res = par_map(&idx, threads, stack, Some(deadline), |_, &c| {
+        let mut agg = Agg::default();
+        for (gi, case, st) in items.iter().skip(c * chunk).take(chunk) {
+            let g = &groups[*gi];
+            fast_check(&g.menu, &g.table, case, st, &mut agg);
+        }
+        agg
+    });
+    for r in res {
+        match r {
+            Some(a) => {
+                out.agg.histories += a.histories;
+                out.agg.cnt.ops += a.cnt.ops;
+                out.agg.cnt.reuse_repeat += a.cnt.reuse_repeat;
+                out.agg.cnt.reuse_across_edit += a.cnt.reuse_across_edit;
+                out.agg.cnt.diag_order_diffs += a.cnt.diag_order_diffs;
+                out.agg.outcome_hashes.extend(a.outcome_hashes);
+                out.agg.suspicious.extend(a.suspicious);
+            }
+            None => out.complete = false,
+        }
+    }
+    Ok(out)
+}
+
 pub fn run(ctx: &Ctx) -> EngineResult {
     quiet_panics();
     let mut rep = Report::new("model_checking");
@@ -1379,6 +1667,9 @@ pub fn run(ctx: &Ctx) -> EngineResult {
             (1, Family::Full, nv),
             (2, Family::PlainSweep, nv),
             (3, Family::PlainSweep, small),
+            // 4 edits confined to files f0,f1 (marker: 100 + number of files): the shortest
+            // "remove(f); edit of a present g; query g" history has 4 edits
+            (104 + 100 * 2, Family::PlainSweep, small),
             (2, Family::PlainFirst, nv),
             (2, Family::LastGap, nv),
             (2, Family::Uniform, nv),
@@ -1413,16 +1704,63 @@ pub fn run(ctx: &Ctx) -> EngineResult {
     let mut flagged = 0u64;
     let mut unconfirmed = 0u64;
     let mut seen_stage: HashSet<(usize, String)> = HashSet::new();
+    // ---- twin stage (2 files, same-length twins; see TWINS) ----
+    {
+        let tw = twin_stage(ctx.threads, stack, deadline, ctx.tier == Tier::Thorough)?;
+        for c in tw.fresh_cases.iter().take(20) {
+            rep.violations_from(violations_of(c));
+        }
+        if tw.pairs_visible_in_user_file < 8 {
+            return machinery(format!(
+                "twin stage vacuous: only {} of {} twin pairs are visible in the answers for the other file",
+                tw.pairs_visible_in_user_file, tw.pairs
+            ));
+        }
+        total.histories += tw.agg.histories;
+        total.cnt.ops += tw.agg.cnt.ops;
+        total.cnt.reuse_repeat += tw.agg.cnt.reuse_repeat;
+        total.cnt.reuse_across_edit += tw.agg.cnt.reuse_across_edit;
+        total.cnt.diag_order_diffs += tw.agg.cnt.diag_order_diffs;
+        flagged += tw.agg.suspicious.len() as u64;
+        for c in tw.agg.suspicious.iter() {
+            if slow_checked < 200 {
+                slow_checked += 1;
+                let v = violations_of(c);
+                if v.is_empty() {
+                    unconfirmed += 1;
+                }
+                rep.violations_from(v);
+            }
+        }
+        rep.set("twin_groups", TWINS.len() as u64);
+        rep.set("twin_ordered_pairs", tw.pairs);
+        rep.set("twin_pairs_visible_in_other_file", tw.pairs_visible_in_user_file);
+        rep.set("twin_histories", tw.agg.histories);
+        rep.set("twin_distinct_final_observations", tw.agg.outcome_hashes.len() as u64);
+        eprintln!(
+            "[C13] twin stage: {} groups, {} ordered pairs ({} visible in the other file), {} histories, {:.1}s",
+            TWINS.len(), tw.pairs, tw.pairs_visible_in_user_file, tw.agg.histories, ctx.elapsed()
+        );
+        if tw.complete {
+            completed.push("twins:2files".to_string());
+        } else {
+            exhaustive = false;
+            rep.cap("wall cap reached in the twin stage");
+        }
+    }
     for (d, fam, snv) in stages {
         if !exhaustive {
             break;
         }
+        // d >= 100 encodes a stage confined to the first k files: d = 100 + 100*k + edits
+        let (d, files_used) = if d >= 100 { ((d - 100) % 100, (d - 100) / 100) } else { (d, nfiles) };
         let vectors = family_vectors(fam, d, ns);
         // edit alphabet of this stage (sets restricted to the first `snv` texts)
         let edits: Vec<Op> = all_edits
             .iter()
             .filter(|e| match e {
-                Op::Set { label, .. } => menu.texts.iter().position(|(l, _)| l == label).is_some_and(|i| i < snv),
+                Op::Set { label, file, .. } => *file < files_used && menu.texts.iter().position(|(l, _)| l == label).is_some_and(|i| i < snv),
+                Op::Remove { file } => *file < files_used,
                 _ => true,
             })
             .cloned()
@@ -1501,7 +1839,7 @@ pub fn run(ctx: &Ctx) -> EngineResult {
                 None => exhaustive = false,
             }
         }
-        let label = format!("depth{d}:{fam:?}:{snv}texts");
+        let label = if files_used == nfiles { format!("depth{d}:{fam:?}:{snv}texts") } else { format!("depth{d}:{fam:?}:{snv}texts:{files_used}files") };
         eprintln!(
             "[C13] stage {label}: {done}/{nitems} items ({nseq} edit sequences x {} memo vectors), total histories {}, {:.1}s (stage {:.1}s)",
             vectors.len(),
@@ -1511,7 +1849,7 @@ pub fn run(ctx: &Ctx) -> EngineResult {
         );
         if exhaustive {
             completed.push(label);
-            if matches!(fam, Family::PlainSweep | Family::Full) && snv == nv {
+            if matches!(fam, Family::PlainSweep | Family::Full) && snv == nv && files_used == nfiles {
                 depth_completed = depth_completed.max(d);
             }
         } else {
